@@ -74,6 +74,14 @@ add("C07", "pipe", "exploration",
     "Cache skips in All-without-Force runs are observed (no generator call), not modelled here (C08 models them).",
     "DESIGN.md section 3, C07")
 
+add("C01", "pipe", "exploration",
+    "property-based testing (rapid): grammar-generated declarations with odd whitespace rendered through recording generators; differential against go/parser, go/scanner, go/format and gofumpt",
+    "Generators render declarations drawn from a Go grammar (funcs, methods, var/const/type, literals, comments, directives, imports through snippet.ID) with "
+    "hostile whitespace; after Execute each written file must parse, open with a comment naming its generator (whole word), declare the spec's package name, "
+    "hold exactly the recorded rendered tokens and comments in order, and be a fixed point of go/format.Source and of gofumpt for the module's go version and path.",
+    "Trusts go/scanner, go/parser, go/format and mvdan.cc/gofumpt as reference; token equality is asserted only for the grammar, which avoids gofmt -s / gofumpt token rewrites.",
+    "DESIGN.md section 3, C01")
+
 ALL = ["C%02d" % i for i in range(1, 21)]
 
 def main():
